@@ -52,6 +52,15 @@ def current_command(cmd):
     return deco
 
 
+class _AllRecipientsRejected(Exception):
+    # Every recipient was rejected, but not all in the same way: the failure
+    # has to be reported per recipient.
+
+    def __init__(self, rcpttos):
+        super(_AllRecipientsRejected, self).__init__()
+        self.rcpttos = rcpttos
+
+
 class SmtpRelayClient(RelayPoolClient):
 
     _client_class = Client
@@ -190,6 +199,8 @@ class SmtpRelayClient(RelayPoolClient):
             if not rcptto.is_error():
                 break
         else:
+            if len(set(rcptto.code[0] for rcptto in rcpttos)) > 1:
+                raise _AllRecipientsRejected(rcpttos)
             raise SmtpRelayError.factory(rcpttos[0])
         if data.is_error():
             raise SmtpRelayError.factory(data)
@@ -230,7 +241,7 @@ class SmtpRelayClient(RelayPoolClient):
         try:
             data = self._data()
             self._check_replies(mailfrom, rcpttos, data)
-        except SmtpRelayError:
+        except (SmtpRelayError, _AllRecipientsRejected):
             if data and not data.is_error():
                 self._send_empty_data()
             raise
@@ -239,12 +250,21 @@ class SmtpRelayClient(RelayPoolClient):
             if rcpt_reply.is_error():
                 rcpt_results[rcpt] = SmtpRelayError.factory(rcpt_reply)
 
+    def _set_rejected(self, result, envelope, rcpttos):
+        rcpt_results = {}
+        for rcpt, rcpt_reply in zip(envelope.recipients, rcpttos):
+            rcpt_results[rcpt] = SmtpRelayError.factory(rcpt_reply)
+        result.set(rcpt_results)
+        self._rset()
+
     def _deliver(self, result, envelope):
         rcpt_results = dict.fromkeys(envelope.recipients)
         try:
             self._handle_encoding(envelope)
             self._send_envelope(rcpt_results, envelope)
             msg_result = self._send_message_data(envelope)
+        except _AllRecipientsRejected as e:
+            self._set_rejected(result, envelope, e.rcpttos)
         except SmtpRelayError as e:
             result.set_exception(e)
             self._rset()
